@@ -23,6 +23,8 @@ type Config struct {
 	WorkDir         string
 	MaxViolPerLabel int
 	Seed            int64
+	Strings         bool   // string mode: cvc5 is the deciding solver
+	SplitMax        int    // max pieces strings.Split may produce on a symbolic string
 	BlockChoices    bool   // explore every choice of the next thread at blocking points (else round-robin)
 	Property        string // obligations tagged with other properties are skipped
 }
@@ -30,7 +32,7 @@ type Config struct {
 func DefaultConfig() Config {
 	return Config{StepLimit: 20_000_000, MaxAlloc: 1 << 16, MaxThreads: 8, MaxSwitches: 2, Unwind: 12,
 		ConcretizeLimit: 8, MaxPaths: 200000, Timeout: 10 * time.Minute, Workers: 8, SolverCapMs: 1500,
-		WorkDir: "/tmp", MaxViolPerLabel: 2}
+		WorkDir: "/tmp", MaxViolPerLabel: 2, SplitMax: 8}
 }
 
 type Violation struct {
@@ -38,6 +40,7 @@ type Violation struct {
 	Label      string           `json:"label"`
 	Kind       string           `json:"kind"` // assert | panic | deadlock | hang
 	Vars       map[string]int64 `json:"vars"`
+	SVars      map[string]string `json:"svars,omitempty"`
 	Choices    []int64          `json:"choices"`
 	Oracle     []int64          `json:"oracle"`
 	Trace      []int64          `json:"trace"`
@@ -48,6 +51,7 @@ type Violation struct {
 
 type Replay struct {
 	Vars    map[string]int64
+	SVars   map[string]string
 	Choices []int64
 	Oracle  []int64
 	opos    int
@@ -70,11 +74,14 @@ type pathMgr struct {
 	names   map[string]int
 	vars    []string
 	kinds   map[string]types.BasicKind
+	strVars map[string]bool
 	unwind  int
 	facts   map[string]string
 	pcSet   map[string]bool
 
 	concrete *Replay
+	lastSVars map[string]string
+	ambiguous []string
 	newWork  [][]int64
 }
 
@@ -87,6 +94,7 @@ func (pm *pathMgr) beginRun(prefix []int64) {
 	pm.names = map[string]int{}
 	pm.vars = pm.vars[:0]
 	pm.kinds = map[string]types.BasicKind{}
+	pm.strVars = map[string]bool{}
 	pm.unwind = pm.cfg.Unwind
 	pm.facts = map[string]string{}
 	pm.pcSet = map[string]bool{}
@@ -155,7 +163,7 @@ func (pm *pathMgr) fresh(name string, k types.BasicKind) value {
 	if pm.concrete != nil {
 		return concreteOfKind(pm.concrete.Vars[plain], k)
 	}
-	full := "|" + plain + "|"
+	full := "|$" + plain + "|"
 	if !pm.w.declared[full] {
 		pm.w.declared[full] = true
 		if k == types.Bool {
@@ -167,6 +175,24 @@ func (pm *pathMgr) fresh(name string, k types.BasicKind) value {
 	pm.vars = append(pm.vars, full)
 	pm.kinds[full] = k
 	return symv{full, k}
+}
+
+// freshStr introduces a symbolic string (ASCII only: Go strings are byte
+// sequences, SMT strings code-point sequences; they agree on ASCII).
+func (pm *pathMgr) freshStr(name string) value {
+	plain := pm.uniqueName(name)
+	if pm.concrete != nil {
+		return pm.concrete.SVars[plain]
+	}
+	full := "|$" + plain + "|"
+	if !pm.w.declared[full] {
+		pm.w.declared[full] = true
+		pm.sol.declare("(declare-const " + full + " String)")
+	}
+	pm.vars = append(pm.vars, full)
+	pm.strVars[full] = true
+	pm.addPC("(str.in_re " + full + " (re.* (re.range \"\\u{0}\" \"\\u{7f}\")))")
+	return symstr{full}
 }
 
 func (pm *pathMgr) checkSat(extra string) string {
@@ -348,9 +374,19 @@ func (pm *pathMgr) model() (map[string]int64, bool) {
 
 func (pm *pathMgr) modelInts(m map[string]string) map[string]int64 {
 	out := map[string]int64{}
+	pm.lastSVars = nil
 	for k, v := range m {
+		if pm.strVars[k] {
+			if s, ok := parseSMTString(v); ok {
+				if pm.lastSVars == nil {
+					pm.lastSVars = map[string]string{}
+				}
+				pm.lastSVars[strings.TrimPrefix(strings.Trim(k, "|"), "$")] = s
+			}
+			continue
+		}
 		if n, ok := modelInt(v); ok {
-			out[strings.Trim(k, "|")] = n
+			out[strings.TrimPrefix(strings.Trim(k, "|"), "$")] = n
 		}
 	}
 	return out
@@ -366,7 +402,7 @@ func (pm *pathMgr) recordViolation(kind, label string, vars map[string]int64) {
 	for k, v := range pm.facts {
 		facts[k] = v
 	}
-	w.violations = append(w.violations, &Violation{Harness: w.harness, Label: label, Kind: kind, Vars: vars,
+	w.violations = append(w.violations, &Violation{Harness: w.harness, Label: label, Kind: kind, Vars: vars, SVars: pm.lastSVars,
 		Choices: append([]int64{}, pm.choices...), Oracle: append([]int64{}, pm.oracle...), Trace: append([]int64{}, pm.trace...), Facts: facts})
 }
 
